@@ -984,33 +984,25 @@ class DisjointSet(object):
 
     def add(self, a: FNode, b: FNode):
         """Add the pair (a,b) in the set"""
-        leadera = self.leader.get(a)
-        leaderb = self.leader.get(b)
-        if leadera is not None:
-            if leaderb is not None:
-                if leadera == leaderb:
-                    return # nothing to do
-                groupa = self.group[leadera]
-                groupb = self.group[leaderb]
-                if self.comp is not None and self.comp(leadera, leaderb) > 0:
-                    a, leadera, groupa, b, leaderb, groupb = b, leaderb, groupb,\
-                                                             a, leadera, groupa
-                groupa |= groupb
-                del self.group[leaderb]
-                for k in groupb:
-                    self.leader[k] = leadera
-            else:
-                self.group[leadera].add(b)
-                self.leader[b] = leadera
-        else:
-            if leaderb is not None:
-                self.group[leaderb].add(a)
-                self.leader[a] = leaderb
-            else:
-                if self.comp is not None and self.comp(a, b) > 0:
-                    a, b = b, a
-                self.leader[a] = self.leader[b] = a
-                self.group[a] = set([a, b])
+        for k in (a, b):
+            if k not in self.leader:
+                # A new element starts as a group of its own, so that
+                # it takes part in the ranking when the groups are merged
+                self.leader[k] = k
+                self.group[k] = set([k])
+        leadera = self.leader[a]
+        leaderb = self.leader[b]
+        if leadera == leaderb:
+            return # nothing to do
+        groupa = self.group[leadera]
+        groupb = self.group[leaderb]
+        if self.comp is not None and self.comp(leadera, leaderb) > 0:
+            a, leadera, groupa, b, leaderb, groupb = b, leaderb, groupb,\
+                                                     a, leadera, groupa
+        groupa |= groupb
+        del self.group[leaderb]
+        for k in groupb:
+            self.leader[k] = leadera
 
     def find(self, k: FNode) -> FNode:
         """Find the root of k in the set"""
